@@ -41,9 +41,16 @@ META = dict(
 LONG = [VALS[(i * 7 + i // 10) % len(VALS)] for i in range(12345)]
 
 
+SORTED = sorted(v for v in LONG if v != alpha.NAN)   # gap-free, non-decreasing, every value repeated > 1000 times
+SORTED_SHORT = SORTED[::5]
+
+
 def series_space(n):
     yield from PRODUCT
     yield LONG
+    yield SORTED
+    yield SORTED_SHORT
+    yield list(reversed(SORTED_SHORT))
     for x in alpha.all_seqs(VALS, 0, n):
         yield list(x)
 
@@ -204,6 +211,10 @@ def run_task(task, acc):
                         for incl in INCL:
                             yield dict(fn="valid_int", x=vals, dtype=dt_, lo=lo, hi=hi, incl=None if incl is None else list(incl))
                             yield dict(fn="valid_int", x=list(reversed(vals))[:3], dtype=dt_, lo=lo, hi=hi, incl=None if incl is None else list(incl))
+                            if dt_ != "int32":
+                                big = list(alpha.xl(tuple(vals), 3000, 3))
+                                yield dict(fn="valid_int", x=big, dtype=dt_, lo=lo, hi=hi, incl=None if incl is None else list(incl))
+                                yield dict(fn="valid_int", x=sorted(big), dtype=dt_, lo=lo, hi=hi, incl=None if incl is None else list(incl))
         run_cases(acc, gen(), check_case)
     elif kind == "f32":
         def gen():
@@ -233,6 +244,8 @@ def run_task(task, acc):
     elif kind == "valid_dt":
         def gen():
             series = [list(INSTANTS), list(reversed(INSTANTS))] + [list(x) for x in alpha.all_seqs(INSTANTS, 0, 2)]
+            long_mixed = list(alpha.xl(INSTANTS, 5000, 3))
+            series += [long_mixed, sorted(v for v in long_mixed if v != "NaT"), sorted((v for v in long_mixed if v != "NaT"), reverse=True)]
             for lo in TB:
                 for hi in TB:
                     for incl in INCL:
